@@ -219,8 +219,8 @@ def tlc(ctx, module, cfg, workers=8, simulate=None, depth=None, timeout=900, env
     res = {"out": out, "outpath": outpath, "rc": p.returncode, "wall_s": round(time.time() - t, 1), "states": 0,
            "distinct": 0, "queue": 0, "violated": re.findall(r"Invariant (\w+) is violated", out)}
     res["violated"] += re.findall(r"Action property (\w+) is violated", out)
-    res["violated"] += re.findall(r"Temporal properties were violated", out)
-    res["violated"] += ["Temporal property %s was violated" % x for x in re.findall(r"Temporal property (\w+) was violated", out)]
+    # TLC words this in three ways ("Temporal properties were violated", "Temporal property P was violated", "Temporal properties P and Q were violated")
+    res["violated"] += [x.strip() for x in re.findall(r"(Temporal propert(?:y|ies)[^\n.]*violated)", out)]
     res["violated"] += ["ASSUME(line %s)" % x for x in re.findall(r"Assumption line (\d+), .* is false", out)]
     m = TLC_FINAL.findall(out)
     if m:
